@@ -70,7 +70,7 @@ def in_worktree(sid):
         d = os.path.join(ROOT, 'seeded', sid)
         prop = sid.split('-')[0]
         subprocess.run(['git', '-C', w['wt'], 'apply', os.path.join(d, 'patch.diff')], check=True)
-        env = dict(os.environ, VERIF_REPO=w['wt'], VERIF_REPLAY_DIR=w['replay'], VERIF_REPLAY_TARGET=w['target'], VERIF_OUT=w['out'])
+        env = dict(os.environ, VERIF_REPO=w['wt'], VERIF_REPLAY_DIR=w['replay'], VERIF_REPLAY_TARGET=w['target'], VERIF_OUT=w['out'], VERIF_CONFORM='0')
         try:
             r = subprocess.run(['python3', 'vtool/check.py', prop], cwd=ROOT, capture_output=True, text=True, env=env)
         finally:
